@@ -96,12 +96,18 @@ def phase2(flt):
         d = scratch(f, mid)
         alarms, confirmed = [], []
         try:
-            for p in props:
-                rc, out = sh(f'/verif/bin/sigverif -repo {d} check {p}', timeout=900)
+            # cheap checks first; with MUT_FIRST=1 stop at the first alarm ("noticed" is what counts)
+            cost = {'C15': 0, 'C18': 1, 'C19': 2, 'C13': 3, 'C16': 3, 'C02': 3, 'C04': 3, 'C14': 4, 'C17': 4, 'C05': 5, 'C06': 5, 'C07': 5,
+                    'C12': 6, 'C03': 6, 'C10': 7, 'C11': 7, 'C01': 8, 'C20': 8, 'C08': 9, 'C09': 9}
+            for p in sorted(props, key=lambda q: cost.get(q, 5)):
+                rc, out = sh(f'{os.environ.get("MUT_BIN", "/verif/bin/sigverif")} -repo {d} check {p}', timeout=900)
                 if rc != 0 or 'VIOLATION' in out:
                     alarms.append(p)
                     if any('VIOLATION' in x and 'no-failing-input-found' not in x for x in out.splitlines()):
                         confirmed.append(p)
+                    if os.environ.get('MUT_FIRST'):
+                        alarms.append('(stopped-at-first-alarm)')
+                        break
         finally:
             shutil.rmtree(d, ignore_errors=True)
         with open(f'{OUT}/results.tsv', 'a') as w:
